@@ -14,6 +14,7 @@ import (
 	"runtime"
 	"sort"
 	"strings"
+	"sync"
 
 	"github.com/google/badwolf/storage/memory"
 	. "verif/harness/internal/execgen"
@@ -24,6 +25,7 @@ func main() {
 	n := flag.Int("n", 100, "number of sequences")
 	replay := flag.String("replay", "", "file with one statement text per line: run them as one sequence")
 	bulkFlag := flag.Int("bulk", 0, "bulk size (0 = drawn per sequence)")
+	bursts := flag.Int("bursts", 25, "number of concurrent CREATE/INSERT bursts")
 	big := flag.Bool("big", false, "also run the DECONSTRUCT of 1027 rows as one batch (bulk size 2048)")
 	mode := flag.String("mode", "random", "random | pool (all sequences of at most -len statements from the fixed pool)")
 	maxLen := flag.Int("len", 3, "maximal sequence length in pool mode")
@@ -250,6 +252,83 @@ func main() {
 			step(data("delete", 0, 1027))
 		}
 		enc.Encode(seq)
+	}
+	// corpus: the same instant spelled in different zones between INSERT and DELETE / DECONSTRUCT
+	{
+		st := memory.NewStore()
+		b := NewBlanks()
+		g := &Gen{R: rnd, B: b}
+		seq := Seq{ID: -8, Bulk: 2}
+		step := func(s VStmt) {
+			if s.Kind == "construct" {
+				s.Q = g.QueryHaving(ctx, st, s.Ins, s.WB, s.Note, s.Hav)
+			}
+			r := Execute(ctx, st, s.Text, seq.Bulk)
+			s.Obs = &Observed{Class: r.Class, Err: r.Err, After: Listing(ctx, st, b)}
+			seq.Stmts = append(seq.Stmts, s)
+		}
+		at := int64(1591012800000000000) // 2020-06-01T12:00:00Z
+		tr := func(id string, z int) VTriple {
+			return VTriple{S: VNode{T: "/u", I: "a"}, P: VPred{ID: id, A: &at, Z: z}, O: VObj{N: &VNode{T: "/u", I: "b"}}}
+		}
+		data := func(kind, gname string, t VTriple) VStmt {
+			kw := "INSERT DATA INTO "
+			if kind == "delete" {
+				kw = "DELETE DATA FROM "
+			}
+			return VStmt{Kind: kind, Gs: []string{gname}, Ts: []VTriple{t}, Text: kw + gname + " { " + b.TripleText(t) + " };"}
+		}
+		step(VStmt{Kind: "create", Gs: []string{"?a", "?b"}, Text: "CREATE GRAPH ?a, ?b;"})
+		step(data("insert", "?a", tr("r", 120)))
+		step(data("insert", "?b", tr("r", 0)))
+		step(data("delete", "?b", tr("r", 120)))  // stored ...T12:00:00Z, removed as ...T14:00:00+02:00
+		step(data("insert", "?b", tr("w", -330))) // stored ...T06:30:00-05:30
+		step(data("insert", "?b", tr("w", 0)))    // the same triple again, other spelling: still one triple
+		c := Pool(b)[9]                           // template ?s "w"@[?t] ?o over WHERE { ?s "r"@[?t] ?o }: ?t comes from ?a (+02:00)
+		c.Add, c.Outs, c.Ins = false, []string{"?b"}, []string{"?a"}
+		c.Text = fmt.Sprintf("DECONSTRUCT { %s } IN ?b FROM ?a WHERE { %s };", b.RenderTemplate(c.Tmpl), c.Note)
+		step(c)
+		enc.Encode(seq)
+	}
+	// burst: CREATE GRAPH of one new name from 8 goroutines at once, each followed by an INSERT of its own triple:
+	// exactly one CREATE succeeds and the graph ends up holding every triple whose INSERT reported success
+	for rep := 0; rep < *bursts; rep++ {
+		st := memory.NewStore()
+		b := NewBlanks()
+		const workers = 8
+		type res struct {
+			created, inserted bool
+			t                 VTriple
+		}
+		out := make([]res, workers)
+		start := make(chan struct{})
+		var wg sync.WaitGroup
+		for k := 0; k < workers; k++ {
+			wg.Add(1)
+			go func(k int) {
+				defer wg.Done()
+				t := VTriple{S: VNode{T: "/u", I: fmt.Sprintf("w%d", k)}, P: VPred{ID: "p"}, O: VObj{N: &VNode{T: "/u", I: "b"}}}
+				text := "INSERT DATA INTO ?n { " + b.TripleText(t) + " };"
+				<-start
+				c := Execute(ctx, st, "CREATE GRAPH ?n;", 100)
+				i := Execute(ctx, st, text, 100)
+				out[k] = res{c.Class == "ok", i.Class == "ok", t}
+			}(k)
+		}
+		close(start)
+		wg.Wait()
+		bu := &Burst{Workers: workers}
+		for _, r := range out {
+			if r.created {
+				bu.CreateOK++
+			}
+			if r.inserted {
+				bu.InsertOK = append(bu.InsertOK, r.t)
+			}
+		}
+		l := Listing(ctx, st, b)
+		bu.Final, bu.GraphSeen = l["?n"], l["?n"] != nil
+		enc.Encode(Seq{ID: -100 - rep, Bulk: 100, Stmts: []VStmt{}, Burst: bu})
 	}
 	sized(-6, 100, false)
 	if *big {
